@@ -59,3 +59,19 @@ Example C01_nonvacuous : wf_graphb ex_G = true /\ upgrade_plan ex_G [5]%N [1; 4]
   /\ ref_targets ex_G [1;4]%N THeads = RefOk [5]%N /\ ref_targets ex_G [3]%N (TRelCur 1) = RefError
   /\ ref_targets ex_G [2]%N (TRelId 4 1) = RefOk [5]%N.
 Proof. vm_compute. auto 10. Qed.
+
+(* `upgrade heads`: the real heads cover the whole history, so after the plan EVERYTHING is applied:
+   every revision is in the plan or already implied by the rows *)
+From AV Require Import Proofs.C02Proof.
+Theorem C01_upgrade_heads_applies_all : forall G Cur plan,
+  wf_refs G -> ~ cyclic (all_down G) -> ndeps_ok G ->
+  upgrade_plan G (real_heads_of G) Cur = POk plan ->
+  forall x, In x (ids G) -> In x plan \/ AncOf G Cur x.
+Proof. intros G Cur plan WF AC NOK E x Hx.
+  destruct (C01_plan_exact G (real_heads_of G) Cur plan WF AC NOK E) as [_ [Hmem _]].
+  pose proof (every_revision_below_a_real_head G WF AC x Hx) as HA.
+  destruct (proj2 (ancs_spec G WF Cur)) with (z := x) as [_ _].
+  destruct (in_dec N.eq_dec x (ancs G Cur)) as [Hin|Hnin].
+  - right. apply (proj2 (ancs_spec G WF Cur)). exact Hin.
+  - left. apply Hmem. split; auto. intros A. apply Hnin. apply (proj2 (ancs_spec G WF Cur)). exact A. Qed.
+Print Assumptions C01_upgrade_heads_applies_all.
